@@ -61,7 +61,10 @@ func (m *metadataStoreIndex) UpdateIndex(log ipfslog.Log, _ []ipfslog.Entry) err
 	m.lock.Lock()
 	defer m.lock.Unlock()
 
-	entries := log.GetEntries().Slice()
+	// Values() is the log in causal order (oldest first) whatever the order in
+	// which entries were appended or replicated; GetEntries() is the order of
+	// arrival, in which a batch of replicated entries comes newest first.
+	entries := log.Values().Slice()
 
 	// Resetting state
 	m.contacts = map[string]*AccountContact{}
